@@ -32,10 +32,11 @@ MODULE = "chan/Sinr.tla"
 TOL = 1e-9
 DEVS = ["OwnStreamNotSubtracted", "NoiseNotFiltered", "ExtIntPowerIgnored", "JpRowsOfOtherUser",
         "PathlossIgnored", "ConjMissing", "SolverScalesByP", "ListPrecodersScaledAlongStreams",
-        "PowerNoneKeepsCaches", "PlExpansionReusedOnEqualShape", "SolverIgnoresExtInt"]
+        "PowerNoneKeepsCaches", "PlExpansionReusedOnEqualShape", "SolverIgnoresExtInt", "FullFKeepsStaleNs"]
 # OBSERVED in /repo (audit gap 1): IASolverBaseClass.calc_SINR / _in_dB / calc_sum_capacity leave the external interference
 # out although the solver's own calc_Q contains it (pe = 1).  Proposed repair: notes/fixes/C11-solver-sinr-extint.patch
 F_SOLVER_EXT = "SolverSinrIgnoresExtInt"
+ROUTE_SOLVER_EXT = False    # repaired in /repo ef08995: such mismatches are plain violations again
 # id of the finding the list sub-check maps to (fixed in /repo: 15af8cd)
 F_LIST = "ListPrecodersScaledAlongStreams"
 INVARIANTS = ["TypeOK", "CachesFresh", "NonNegative", "ScaleInvariant", "QHermitianPSD", "QIsSumOfLinks",
@@ -126,11 +127,11 @@ THOROUGH_CHAINS = [(1, 1, 54), (2, 2, 30), (3, 3, 30), (4, 4, 30), (5, 5, 54), (
 DEV_WHERE = {"OwnStreamNotSubtracted": ("star", 1, 1, 6), "NoiseNotFiltered": ("star", 1, 1, 10), "ExtIntPowerIgnored": ("star", 5, 6, 8),
              "JpRowsOfOtherUser": ("star", 7, 8, 6), "PathlossIgnored": ("star", 1, 1, 8), "ConjMissing": ("star", 1, 1, 8),
              "SolverScalesByP": ("star", 1, 1, 10), "ListPrecodersScaledAlongStreams": ("star", 2, 2, 16),
-             "SolverIgnoresExtInt": ("star", 6, 6, 10),
+             "SolverIgnoresExtInt": ("star", 6, 6, 10), "FullFKeepsStaleNs": ("star", 2, 2, 10),
              "PowerNoneKeepsCaches": ("chain", 1, 1, 5), "PlExpansionReusedOnEqualShape": ("chain", 1, 1, 5)}
 # deviations refuted together in one TLC run (-continue), one initial state per deviation
 DEV_GROUPS = [["OwnStreamNotSubtracted", "NoiseNotFiltered", "ExtIntPowerIgnored", "JpRowsOfOtherUser", "PathlossIgnored"],
-              ["ConjMissing", "SolverScalesByP", "ListPrecodersScaledAlongStreams", "SolverIgnoresExtInt"],
+              ["ConjMissing", "SolverScalesByP", "ListPrecodersScaledAlongStreams", "SolverIgnoresExtInt", "FullFKeepsStaleNs"],
               ["PowerNoneKeepsCaches", "PlExpansionReusedOnEqualShape"]]
 
 
@@ -249,7 +250,7 @@ class _Solver:
 NOISE_VALUE = {"none": None, "zero": Fraction(0), "half": Fraction(1, 2), "one": Fraction(1), "two": Fraction(2)}
 IMPLEMENTED_LAWS = {"ArgumentsUnchanged", "EarlierResultsUnchanged", "ResultsAreCopies", "QueryIsPure",
                     "RepresentationIrrelevant", "BystanderUnaffected", "RejectedChangesNothing", "AliasCoherent",
-                    "CapacityPermutationInvariant", "CapacityAdditive", "SolveSelfConsistent", "RandomizeThenQueryCoherent"}
+                    "CapacityPermutationInvariant", "CapacityAdditive", "SolveSelfConsistent", "RandomizeThenQueryCoherent", "SolverHistoryIrrelevant"}
 # (set_receive_filters used to clear the filters before rejecting bad arguments; repaired in /repo 4cafe15)
 CHECK_REJECTED_RECEIVE_FILTERS = True
 
@@ -426,6 +427,7 @@ class Session:
         self.held = []             # (what, returned object, snapshot) of earlier results
         self.bystander = None      # (channel, solver or None, call, snapshot of its answers)
         self.pre = []              # violations found while applying (rejected calls that were accepted)
+        self.route = "ctor"        # how the current precoders reached the solver
 
     def apply(self, case):
         """bring the objects to the case the way its `op` says"""
@@ -444,15 +446,31 @@ class Session:
             self.ch = build_channel(inp, keep=self)
             if solver_applies(inp):
                 self.solver = _Solver.get()(self.ch)
+                # SolverHistoryIrrelevant: what the solver did before the judged precoders / filters arrive
+                pre = inp["pre"]
+                if pre["kind"] != "none":
+                    rs = np.random.RandomState(rot)
+                    Pq0 = np.arange(1, K + 1, dtype=float)
+                    if pre["kind"] == "randomizeF":
+                        self.solver.randomizeF(list(pre["ns"]), P=Pq0)
+                    else:
+                        self.solver.set_precoders(F=_objarr([rs.randn(inp["nt"][k], pre["ns"][k]) + 1j * rs.randn(inp["nt"][k], pre["ns"][k])
+                                                             for k in range(K)]), P=Pq0)
+                        self.solver.set_receive_filters(W=_objarr([rs.randn(inp["nr"][k], pre["ns"][k]) + 0j for k in range(K)]))
+                    try:
+                        self.solver.full_F           # (fills the caches of the earlier configuration)
+                        self.solver.calc_Q(0)
+                    except Exception:
+                        pass
         elif kind == "reinit":
             self.H_arg = _init_channel(self.ch, inp)  # same object, other antenna partition
             if op["pl"] == "set":
                 self.pl_args = _set_pathloss(self.ch, inp, rot=rot)
             self.ch.noise_var = scalar_as(NOISE_VALUE[inp["noise"]], rot)
         if kind in ("fresh", "init", "reinit") and self.solver is not None:
-            variant = (inp["id"][0] + inp["id"][1]) % 2
             fullF = [math.sqrt(float(P[k])) * F[k] for k in range(K)]
-            if kind != "fresh" or variant == 0 or any(not np.any(f) for f in fullF):
+            self.route = "fullF" if (op["pw"] == "fullF" and all(np.any(f) for f in fullF)) else "ctor"
+            if self.route == "ctor":
                 args = dict(F=_objarr(F), P=P.copy())
                 fargs = dict(W=_objarr(U))
             else:
@@ -689,7 +707,7 @@ def compare(sess, case, light=False):
     solQ = [_mat(sol["q1"][k]) for k in range(K)] if (sol["ok"] and sol["q1"]) else Q
 
     def to_finding(mark):
-        if ext:
+        if ext and ROUTE_SOLVER_EXT:
             known.extend((F_SOLVER_EXT, b) for b in bad[mark:])
             del bad[mark:]
 
@@ -709,7 +727,7 @@ def compare(sess, case, light=False):
         ssinr = [[float(_ratinf(x)) for x in row] for row in sol["sinr"]]
         sq = [[_ratinf(x) for x in row] for row in sol["sinr"]]
         P = np.array([float(_rat(a) ** 2) for a in inp["pa"]])
-        if inp["op"]["kind"] != "fresh":     # (fresh cases may hand over full_F directly; P then stays at its default)
+        if sess.route == "ctor" and inp["op"]["kind"] != "scribble":   # (set_precoders(full_F=...) alone leaves P as it was)
             n[0] += 1
             if not _close(np.asarray(s.P, dtype=float), P):
                 bad.append(f"{tag}solver.P reports {np.asarray(s.P).tolist()} expected {P.tolist()}")
@@ -776,7 +794,7 @@ def compare(sess, case, light=False):
             got = guarded("solver.calc_SINR (precoders / filters given as lists)", lambda: make(ch, F, U, lists=True).calc_SINR())
             if got is not None:
                 cmp_rows("solver.calc_SINR (precoders / filters given as lists)", got, ssinr)
-            known.extend((F_SOLVER_EXT if ext else F_LIST, b) for b in bad[mark:])
+            known.extend((F_SOLVER_EXT if (ext and ROUTE_SOLVER_EXT) else F_LIST, b) for b in bad[mark:])
             del bad[mark:]
             # W -> c*W (ordinary and extreme c) and the channel gain must not change the solver's SINR either
             chg = ch if ex_gain == 1.0 else guarded("channel with gain", lambda: build_channel(inp, ex_gain))
@@ -928,7 +946,7 @@ def solver_alias_probe(sess, step_case):
             bad.append(f"[alias probe: write into a matrix handed to the solver] raised {type(ex).__name__}: {ex}")
         m[0, 0] = old
     n, bad2, known = compare(sess, step_case, light=True)
-    if len(step_case["inp"]["nte"]) > 0:         # on a channel with external sources this relation fails for the reason of the finding
+    if len(step_case["inp"]["nte"]) > 0 and ROUTE_SOLVER_EXT:         # on a channel with external sources this relation fails for the reason of the finding
         known = known + [(F_SOLVER_EXT, b) for b in bad]
         bad = []
     return n + len(arrs), bad + ["[after undoing the write into the solver's matrices] " + b for b in bad2], known
